@@ -105,8 +105,11 @@ DEpisode(D, kind, n, op, ret, Y, F) ==   \* Y = the set of entries that were yie
   /\ Len(ret.yield) = n /\ DNoRepeat(ret.yield)
   /\ Y \subseteq D /\ Cardinality(Y) = n
   /\ DRange(ret.yield) = {DProj(kind, e) : e \in Y}
-  /\ DNoRepeat(ret.rem) /\ DRange(ret.rem) = {DProj(kind, e) : e \in D \ Y}
-  /\ Len(ret.rem) = Cardinality(D) - n
+  \* what the cursor still holds, as shown by Debug / a clone (a recorded execution marks cursors
+  \* that offer neither with `norem`)
+  /\ \/ "norem" \in DOMAIN ret
+     \/ /\ DNoRepeat(ret.rem) /\ DRange(ret.rem) = {DProj(kind, e) : e \in D \ Y}
+        /\ Len(ret.rem) = Cardinality(D) - n
   /\ ret.lens = [j \in 1..(n + 1) |-> Cardinality(D) - (j - 1)]
   /\ LET m == Cardinality(D) - n IN      \* items still to come
      /\ F \subseteq D \ Y /\ DNoRepeat(ret.fin.r) /\ DRange(ret.fin.r) = {DProj(kind, e) : e \in F}
@@ -378,6 +381,7 @@ DictAllows(D, cap, op, res) ==
     [] op.name = "default"          -> DClear(D, res)            \* a new empty container replaces the old one
     [] op.name = "s_default"        -> DSClear(D, res)
     [] op.name = "with_capacity"    -> IF op.c = cap THEN DClear(D, res) ELSE Out(res, <<"panic">>, D, {}, {})
+    [] op.name \in {"eq_clone", "s_eq_clone"} -> Same(res, D) /\ Is(res.ret, <<"b", TRUE>>)    \* a container equals its own clone, both ways
     [] op.name = "iter_defaults"    -> Same(res, D) /\ res.ret[1] = "lens" /\ \A i \in 1..Len(res.ret[2]) : res.ret[2][i] = 0
     [] op.name = "s_drop"           -> DSClear(D, res)
     [] op.name = "drain"            -> DDrain(D, "drain", op, res)
